@@ -1,10 +1,11 @@
 (* ControlLossProofs.v — proof for the unbounded instance K = 1 of property C03 for the control PDUs (props/C03r.v):
    in acknowledged mode the two-entity system of System.v delivers EVERY file although ONE of the PDUs that are neither
    File Data nor Metadata is lost: the EOF PDU, the ACK (Finished) (sender -> receiver), the ACK (EOF) or the Finished
-   PDU (receiver -> sender).  These recoveries go through Positive-ACK timer expiries, i.e. through rounds without
-   activity in which System.run advances both clocks by [tick]:
+   PDU (receiver -> sender), and no API call raises an exception in such a run.  Three of the four recoveries go
+   through a Positive-ACK timer expiry, i.e. through rounds without activity in which System.run advances both clocks
+   by [tick]; the lost ACK (EOF) is recovered without one (the Finished PDU implies it: F30 repair, fix 179debf):
      1. the sender after the EOF PDU with its clock and Positive-ACK timer ([TailT]): waiting, re-sending the EOF PDU
-        at an expiry below the limit, refusing a Finished PDU while the ACK (EOF) is awaited,
+        at an expiry below the limit, accepting a Finished PDU while the ACK (EOF) is awaited,
      2. the receiver at an arbitrary clock reading ([RA], [RE], [RW], [RF]): completion, waiting for the ACK (Finished),
         re-sending the Finished PDU at an expiry below the limit, acknowledging a re-sent EOF PDU again,
      3. the scheduler of System.v on a link that drops one PDU in either direction ([surv]), with the exceptions the
@@ -13,7 +14,7 @@
      5. the runs: the perfect-link prefix up to the EOF PDU, the rounds all recoveries share, then per lost PDU the
         idle rounds until the timer in question expires (induction over the time left; no relation between [tick]
         and the intervals is assumed) and the recovery,
-     6. the theorem, and the counterexample that makes the hypothesis on the two timers necessary for the lost ACK (EOF).
+     6. the theorem, and as an example the configuration that was a counterexample before the F30 repair.
    Built on PerfectLinkProofs.v (symbolic interpreter of the receiver monad), PerfectLinkAckedProofs.v (sender invariant,
    fault-free tail) and SingleLossProofs.v ([reach], [sphase]/[dphase]).  No axioms. *)
 From CFDP Require Import Base LostSeg Fs Crc Checksum Handler Dest Source HandlerSpec SourceSpec System.
@@ -130,15 +131,22 @@ Proof.
   repeat (apply clean_cons; [reflexivity|reflexivity|]); exact H19.
 Qed.
 
-(* a Finished PDU while the ACK (EOF) is awaited is refused *)
-Lemma t7_refuse : forall nw t0 k s cond dl fst0 fl0, TailT nw t0 k s ->
-  state_machine_s (Some (PFinished (hdr_of cf TOWARDS_SENDER) cond dl fst0 fl0)) s = (s, Err E_PDU_IGNORED_SOURCE).
+(* a Finished PDU while the ACK (EOF) is awaited implies that ACK: it is accepted, the step becomes WAITING_FOR_FINISHED
+   and the same call handles the PDU there: ACK (Finished) is emitted, the step is SENDING_ACK_OF_FINISHED.
+   (Before fix 179debf of the Python code - finding F30 - the admission check refused the PDU with PduIgnoredForSource
+   and left the state unchanged.) *)
+Lemma t7_finished : forall nw t0 k s fstat, TailT nw t0 k s ->
+  exists s', pump_with (Some (PFinished (hdr_of cf TOWARDS_SENDER) C_NO_ERROR DATA_COMPLETE fstat None)) s =
+               (s', Ok [PAck (hdr_of cf TOWARDS_RECEIVER) D_FINISHED C_NO_ERROR TS_ACTIVE]) /\
+             Tail c p r cf tid SS_SENDING_ACK_OF_FINISHED (Some (C_NO_ERROR, DATA_COMPLETE, fstat, None)) s'.
 Proof.
-  intros nw t0 k s cond dl fst0 fl0 (H1&H2&H3&H4&H5&H6&H7&H8&H9&H10&H11&H12&H13&H14&H15&H16&H17&H18&H19).
+  intros nw t0 k s fstat (H1&H2&H3&H4&H5&H6&H7&H8&H9&H10&H11&H12&H13&H14&H15&H16&H17&H18&H19).
   destruct s as [cfg st step ready queue q sb pt sc sbits [nw' fs' rw lg]].
   destruct q. cbn in H1,H2,H3,H4,H5,H6,H7,H8,H9,H10,H11,H12,H13,H14,H15,H16,H17,H18,H19. subst.
-  unfold state_machine_s, check_inserted_packet_s.
-  repeat (progress (sx; rewrite ?Hm, ?Hsrc, ?Hdst, ?zeqb_refl)). reflexivity.
+  unfold pump_with, state_machine_s, check_inserted_packet_s.
+  repeat (progress (sx; rewrite ?Hm, ?Hsrc, ?Hdst, ?zeqb_refl; unf_final)).
+  eexists; split; [reflexivity|]. unfold Tail; cbn.
+  repeat (split; [reflexivity|]). exact H19.
 Qed.
 
 (* a call without a PDU while the Finished PDU is awaited (acknowledged mode: no check timer): nothing *)
@@ -957,11 +965,12 @@ Proof.
   intros s HT. destruct (step_finished cs p rs cf tid Hm Hsrc Hdstr s FS_RETAINED HT) as (s' & P & HT').
   rewrite (hdr_eq_b cd cf Hm Hdst), (hdr_eq_a cd cf Hm Hdst) in P. exists s'. split; assumption.
 Qed.
-Lemma L_refuse : forall nw t0 k s, T7 nw t0 k s -> state_machine_s (Some finP') s = (s, Err E_PDU_IGNORED_SOURCE).
+(* the Finished PDU while the ACK (EOF) is still awaited: accepted and acknowledged in the same call (F30 repair) *)
+Lemma L_fin7 : forall nw t0 k s, T7 nw t0 k s -> exists s', pump_with (Some finP') s = (s', Ok [ackFG]) /\ T9 s'.
 Proof.
   intros nw t0 k s HT.
-  pose proof (t7_refuse cs p rs fss data cf seg tid Hm Hsrc Hdstr nw t0 k s C_NO_ERROR DATA_COMPLETE FS_RETAINED None HT) as H.
-  rewrite (hdr_eq_b cd cf Hm Hdst) in H. exact H.
+  destruct (t7_finished cs p rs fss data cf seg tid Hm Hsrc Hdstr nw t0 k s FS_RETAINED HT) as (s' & P & HT').
+  rewrite (hdr_eq_b cd cf Hm Hdst), (hdr_eq_a cd cf Hm Hdst) in P. exists s'. split; assumption.
 Qed.
 Lemma L_complete : forall nwd ls fs lg, lookup fs [x] = Some (File data) ->
   Dest.state_machine None (REx nwd 0 [] cks ls fs lg) = (RWx nwd nwd 0 1 [finP'] cks ls fs (evF :: lg), Ok tt).
@@ -1055,16 +1064,16 @@ Proof.
   - exists s', fs, lg. split; [at_here|]. split; [exact HT'|]. split; [exact Hl|exact Hc].
 Qed.
 
-(* what the verdict looks at, after the last round *)
-Definition FinalG (y : sys) : Prop :=
-  exists er s nwd fs lgs lgd c1 c2 rnd scur dcur sdone ddone,
+(* what the verdict looks at, after the last round; [er]: the exceptions the API calls have raised *)
+Definition FinalG (er : list (Z * Z)) (y : sys) : Prop :=
+  exists s nwd fs lgs lgd c1 c2 rnd scur dcur sdone ddone,
     y = ZG [ft] er s (RFx nwd fs (evF :: lgd)) [] [] c1 c2 rnd scur dcur sdone ddone /\
     e_log (s_env s) = EvFinished (sc_src cf) (sc_seq cf) C_NO_ERROR DATA_COMPLETE FS_RETAINED None :: lgs /\
     clean lgs /\ clean lgd /\ lookup fs [x] = Some (File data).
 
 (* the last round: the sender issues its Transaction-Finished indication; both handlers idle *)
 Lemma G_done : forall er nwd c1 c2 y, W er T9 (rF nwd) true [] c1 c2 y ->
-  exists y' a, step_round y = (y', a) /\ quiescent y' = true /\ FinalG y'.
+  exists y' a, step_round y = (y', a) /\ quiescent y' = true /\ FinalG er y'.
 Proof.
   intros er nwd c1 c2 y (s & fs & lg & (rnd & dcur & sdone & ddone & ->) & HT & Hl & Hc).
   destruct (step_done cs p rs cf tid Hfins s FS_RETAINED HT) as (s' & lg0 & P & Hst & Hlog & Hc0).
@@ -1073,29 +1082,29 @@ Proof.
   - rewrite (r00 ft Hk s s' _ _ _ _ [] er c1 c2 rnd (Some tid) dcur sdone ddone P ltac:(fo) eq_refl Hsm eq_refl ltac:(fo)).
     reflexivity.
   - unfold quiescent, ZG. cbn [y_src y_dst y_s2d y_d2s y_delayed surv]. rewrite Hst. reflexivity.
-  - do 13 eexists. split; [reflexivity|]. split; [exact Hlog|]. split; [exact Hc0|]. split; [exact Hc|exact Hl].
+  - do 12 eexists. split; [reflexivity|]. split; [exact Hlog|]. split; [exact Hc0|]. split; [exact Hc|exact Hl].
 Qed.
 
 (* a run that ends, quiescent, in a state the verdict accepts *)
-Definition fin_ok (y : sys) : Prop := exists fuel y', run fuel tick y = (y', true) /\ FinalG y'.
+Definition fin_ok (er : list (Z * Z)) (y : sys) : Prop := exists fuel y', run fuel tick y = (y', true) /\ FinalG er y'.
 
-Lemma fin_reach : forall y y0, reach tick y y0 -> fin_ok y0 -> fin_ok y.
+Lemma fin_reach : forall er y y0, reach tick y y0 -> fin_ok er y0 -> fin_ok er y.
 Proof.
-  intros y y0 [m H] (fuel & y' & R & F). exists (m + fuel)%nat, y'. split; [|exact F]. rewrite H. exact R.
+  intros er y y0 [m H] (fuel & y' & R & F). exists (m + fuel)%nat, y'. split; [|exact F]. rewrite H. exact R.
 Qed.
-Lemma fin_last : forall y y' a, step_round y = (y', a) -> quiescent y' = true -> FinalG y' -> fin_ok y.
+Lemma fin_last : forall er y y' a, step_round y = (y', a) -> quiescent y' = true -> FinalG er y' -> fin_ok er y.
 Proof.
-  intros y y' a R Q F. exists 1%nat, y'. split; [|exact F].
+  intros er y y' a R Q F. exists 1%nat, y'. split; [|exact F].
   change 1%nat with (S 0). rewrite run_S, R. cbv iota beta. rewrite Q. reflexivity.
 Qed.
 
-Lemma fin_T9 : forall er nwd c1 c2 y, W er T9 (rF nwd) true [] c1 c2 y -> fin_ok y.
-Proof. intros er nwd c1 c2 y H. destruct (G_done _ _ _ _ _ H) as (y' & a & R & Q & F). exact (fin_last _ _ _ R Q F). Qed.
+Lemma fin_T9 : forall er nwd c1 c2 y, W er T9 (rF nwd) true [] c1 c2 y -> fin_ok er y.
+Proof. intros er nwd c1 c2 y H. destruct (G_done _ _ _ _ _ H) as (y' & a & R & Q & F). exact (fin_last _ _ _ _ R Q F). Qed.
 
-Lemma fin_T8 : forall er nwd td kd ls c1 c2 y, W er T8 (rW nwd td kd ls) true [finP'] c1 c2 y -> hit ft 0 c1 = false -> fin_ok y.
+Lemma fin_T8 : forall er nwd td kd ls c1 c2 y, W er T8 (rW nwd td kd ls) true [finP'] c1 c2 y -> hit ft 0 c1 = false -> fin_ok er y.
 Proof.
   intros er nwd td kd ls c1 c2 y H Hh. destruct (G_fin _ _ _ _ _ _ _ _ H Hh) as (y1 & R1 & H1).
-  apply (fin_reach _ _ R1). exact (fin_T9 _ _ _ _ _ H1).
+  apply (fin_reach _ _ _ R1). exact (fin_T9 _ _ _ _ _ H1).
 Qed.
 
 Lemma TailT_step : forall nw t0 k s, T7 nw t0 k s -> s_step s = SS_WAITING_FOR_EOF_ACK.
@@ -1207,25 +1216,30 @@ Proof.
   - exists s', fs, lg. split; [at_here|]. split; [exact HT'|]. split; [exact Hl|exact Hc].
 Qed.
 
-(* the sender still waits for the ACK (EOF): it refuses the Finished PDU (PduIgnoredForSource) *)
-Lemma C_refuse : forall er nw t0 k nwd td kd ls c1 c2 y, W er (T7 nw t0 k) (rW nwd td kd ls) true [finP'] c1 c2 y ->
-  nwd - td < r_ack_ms rd ->
-  exists y', reach tick y y' /\ W ((0, E_PDU_IGNORED_SOURCE) :: er) (T7 nw t0 k) (rW nwd td kd ls) true [] c1 c2 y'.
+(* the sender still waits for the ACK (EOF): the Finished PDU implies it; the sender accepts the PDU and answers
+   ACK (Finished) in the same call, the receiver is done (before fix 179debf: refused with PduIgnoredForSource) *)
+Lemma C_fin : forall er nw t0 k nwd td kd ls c1 c2 y, W er (T7 nw t0 k) (rW nwd td kd ls) true [finP'] c1 c2 y ->
+  hit ft 0 c1 = false ->
+  exists y', reach tick y y' /\ W er T9 (rF nwd) true [] (c1 + 1) c2 y'.
 Proof.
-  intros er nw t0 k nwd td kd ls c1 c2 y (s & fs & lg & (rnd & dcur & sdone & ddone & ->) & HT & Hl & Hc) Hlt.
-  pose proof (L_refuse nw t0 k s HT) as Hr.
-  pose proof (L_wait nwd td kd ls fs (evF :: lg) Hlt) as Hsm.
-  pose proof (TailT_drain _ _ _ _ _ _ _ _ _ _ _ _ HT) as HT'.
-  unfold rW. eexists. split.
+  intros er nw t0 k nwd td kd ls c1 c2 y (s & fs & lg & (rnd & dcur & sdone & ddone & ->) & HT & Hl & Hc) Hh.
+  destruct (L_fin7 nw t0 k s HT) as (s' & P & HT').
+  pose proof (L_ack_fin TS_ACTIVE nwd td kd ls fs (evF :: lg)) as Hsm. fold ackFG in Hsm.
+  unfold rW.
+  assert (G : dguard ackFG (RWx nwd td kd 0 [] cks ls fs (evF :: lg)) ddone) by (apply dbusy_guard; split; reflexivity).
+  eexists. split.
   - eapply reach_step.
-    + rewrite (r1e0 ft Hk _ s _ _ _ _ [] er c1 c2 rnd (Some tid) dcur sdone ddone ltac:(sbusy HT) Hr
-                 (TailT_queue _ _ _ _ HT) Hsm eq_refl ltac:(fo)).
-      norm0. keep HT. reflexivity.
+    + rewrite (r11 ft Hk _ s s' _ _ _ _ _ [] er c1 c2 rnd (Some tid) dcur sdone ddone ltac:(sbusy HT) P
+                 ltac:(fo) ltac:(cbn [surv]; rewrite Hh; reflexivity) G Hsm eq_refl ltac:(fo)).
+      norm0. keep HT'. reflexivity.
     + apos.
     + apply qz_sbusy. sbusy HT'.
-  - exists (fst (drain_s s)), fs, lg. split; [at_here|]. split; [exact HT'|]. split; [exact Hl|exact Hc].
+  - exists s', fs, lg. split; [at_here|]. split; [exact HT'|]. split; [exact Hl|exact Hc].
 Qed.
 
+(* ---- the lemmas C_idle ... C_ack' below are not on the path of the K = 1 theorem any more (since the F30 repair the lost
+   ACK (EOF) is recovered without a timer expiry); they describe the system when the Finished PDU that would have
+   implied the ACK (EOF) is lost as well, and remain true *)
 (* both timers run: a round without activity *)
 Lemma C_idle : forall er nw t0 k nwd td kd ls c1 c2 y, W er (T7 nw t0 k) (rW nwd td kd ls) true [] c1 c2 y ->
   nw - t0 < r_ack_ms rs -> nwd - td < r_ack_ms rd ->
@@ -1368,7 +1382,7 @@ Qed.
 (* the Finished PDU meets an idle sender whose entity remembers the transaction: ACK (Finished, terminated);
    the receiver is done *)
 Lemma B_last : forall er nwd td kd ls c1 c2 y, WB er (rW nwd td kd ls) [finP'] c1 c2 y -> hit ft 0 c1 = false ->
-  exists y' a, step_round y = (y', a) /\ quiescent y' = true /\ FinalG y'.
+  exists y' a, step_round y = (y', a) /\ quiescent y' = true /\ FinalG er y'.
 Proof.
   intros er nwd td kd ls c1 c2 y (s & fs & lg & lgs & rnd & dcur & sdone & ddone & -> & HD & Hmem & Hl & Hc) Hh.
   destruct HD as (Hi & Hq & Hlog & Hcs).
@@ -1382,7 +1396,7 @@ Proof.
                _ _ _ [] er c1 c2 rnd None dcur sdone ddone Hi Hmem eq_refl Hh G Hsm eq_refl ltac:(fo)).
     reflexivity.
   - unfold quiescent, ZG. cbn [y_src y_dst y_s2d y_d2s y_delayed surv]. rewrite Hi. reflexivity.
-  - do 13 eexists. split; [reflexivity|]. split; [exact Hlog|]. split; [exact Hcs|]. split; [exact Hc|exact Hl].
+  - do 12 eexists. split; [reflexivity|]. split; [exact Hlog|]. split; [exact Hcs|]. split; [exact Hc|exact Hl].
 Qed.
 
 (* ================================================================== *)
@@ -1430,6 +1444,8 @@ Qed.
 
 (* both timers were started at the same reading of the two clocks, [j] idle rounds ago; the sender's does not expire in
    a later idle round than the receiver's *)
+(* [sender_first] and [C_loop] were the timer argument of the lost-ACK (EOF) recovery before the F30 repair; the theorem
+   does not use them any more *)
 Definition sender_first : Prop := forall j, 0 <= j -> r_ack_ms rd <= j * tick -> r_ack_ms rs <= j * tick.
 
 Lemma C_loop : forall m er nw t0 k nwd td kd ls c1 c2 j y, W er (T7 nw t0 k) (rW nwd td kd ls) true [] c1 c2 y ->
@@ -1472,62 +1488,55 @@ Qed.
 (* the EOF PDU is lost: idle rounds until the sender's timer expires, second EOF PDU, then as on a perfect link *)
 Lemma fin_A : forall c1 y, SP (zlen data) c1 y ->
   hit ft 0 c1 = true -> hit ft 0 (c1 + 1) = false -> hit ft 0 (c1 + 1 + 1) = false -> (forall c, hit ft 1 c = false) ->
-  2 <= r_ack_limit rs -> fin_ok y.
+  2 <= r_ack_limit rs -> fin_ok [] y.
 Proof.
   intros c1 y HS Hh0 Hh1 Hh2 Hd Hls.
-  destruct (T_eof_a c1 y HS Hh0) as (y1 & R1 & ls & nw & H1). apply (fin_reach _ _ R1).
-  edestruct A_loop as (y3 & nw' & nwd' & R3 & H3); [exact H1|apply le_n|lia|exact Hh1|apply Hd|]. apply (fin_reach _ _ R3).
-  edestruct G_ackeof as (y4 & R4 & H4); [exact H3|apply Hd|]. apply (fin_reach _ _ R4).
+  destruct (T_eof_a c1 y HS Hh0) as (y1 & R1 & ls & nw & H1). apply (fin_reach _ _ _ R1).
+  edestruct A_loop as (y3 & nw' & nwd' & R3 & H3); [exact H1|apply le_n|lia|exact Hh1|apply Hd|]. apply (fin_reach _ _ _ R3).
+  edestruct G_ackeof as (y4 & R4 & H4); [exact H3|apply Hd|]. apply (fin_reach _ _ _ R4).
   exact (fin_T8 _ _ _ _ _ _ _ _ H4 Hh2).
 Qed.
 
 (* the Finished PDU is lost: idle rounds until the receiver's timer expires, second Finished PDU *)
 Lemma fin_D : forall c1 y, SP (zlen data) c1 y ->
   hit ft 0 c1 = false -> hit ft 0 (c1 + 1) = false -> hit ft 1 0 = false -> hit ft 1 1 = true -> hit ft 1 (1 + 1) = false ->
-  2 <= r_ack_limit rd -> fin_ok y.
+  2 <= r_ack_limit rd -> fin_ok [] y.
 Proof.
   intros c1 y HS Hh0 Hh1 Hd0 Hd1 Hd2 Hld.
-  destruct (T_eof_ok c1 y HS Hh0 Hd0) as (y1 & R1 & ls & nw & H1). apply (fin_reach _ _ R1).
-  edestruct G_ackeof_d as (y2 & R2 & H2); [exact H1|exact Hd1|]. apply (fin_reach _ _ R2).
-  edestruct D_loop as (y4 & nwd' & R4 & H4); [exact H2|apply le_n|lia|exact Hd2|]. apply (fin_reach _ _ R4).
+  destruct (T_eof_ok c1 y HS Hh0 Hd0) as (y1 & R1 & ls & nw & H1). apply (fin_reach _ _ _ R1).
+  edestruct G_ackeof_d as (y2 & R2 & H2); [exact H1|exact Hd1|]. apply (fin_reach _ _ _ R2).
+  edestruct D_loop as (y4 & nwd' & R4 & H4); [exact H2|apply le_n|lia|exact Hd2|]. apply (fin_reach _ _ _ R4).
   exact (fin_T8 _ _ _ _ _ _ _ _ H4 Hh1).
 Qed.
 
-(* the ACK (EOF) is lost: the receiver completes and sends the Finished PDU, which the sender (still waiting for the
-   ACK) refuses; idle rounds until the sender's timer expires: second EOF PDU, acknowledged again by the receiver;
-   the receiver's timer has expired too, or expires after further idle rounds: second Finished PDU *)
+(* the ACK (EOF) is lost: the receiver completes and sends the Finished PDU; the sender, still waiting for the ACK (EOF),
+   takes the Finished PDU for it and answers ACK (Finished) in the same call; both are done.  No timer expires, no
+   exception is raised, neither timer interval nor limit matters.  (Before fix 179debf the sender refused the Finished
+   PDU, both entities had to run into their Positive-ACK timers, and the recovery needed the sender's timer to expire no
+   later than the receiver's.) *)
 Lemma fin_C : forall c1 y, SP (zlen data) c1 y ->
-  (forall c, hit ft 0 c = false) -> hit ft 1 0 = true -> (forall c, 0 < c -> hit ft 1 c = false) ->
-  sender_first -> 2 <= r_ack_limit rs -> 2 <= r_ack_limit rd -> fin_ok y.
+  (forall c, hit ft 0 c = false) -> hit ft 1 0 = true -> (forall c, 0 < c -> hit ft 1 c = false) -> fin_ok [] y.
 Proof.
-  intros c1 y HS Hh Hd0 Hd Hsf Hls Hld.
-  destruct (T_eof_c c1 y HS (Hh _) Hd0) as (y1 & R1 & ls & nw & H1). apply (fin_reach _ _ R1).
-  edestruct C_complete as (y2 & R2 & H2); [exact H1|lia|apply Hd; lia|]. apply (fin_reach _ _ R2).
-  edestruct C_refuse as (y3 & R3 & H3); [exact H2|lia|]. apply (fin_reach _ _ R3).
-  edestruct (C_loop (Z.to_nat (r_ack_ms rs - 0 * tick))) with (j := 0) as (y5 & nw' & nwd' & R5 & H5);
-    [exact H3|exact Hsf|lia|lia|lia|apply le_n|lia|apply Hh|apply Hd; lia|].
-  apply (fin_reach _ _ R5).
-  destruct (Z_lt_le_dec (nwd' - 0) (r_ack_ms rd)) as [Hlt|Hge].
-  - edestruct C_ack' as (y6 & R6 & H6); [exact H5|exact Hlt|]. apply (fin_reach _ _ R6).
-    edestruct D_loop as (y7 & nwd'' & R7 & H7); [exact H6|apply le_n|lia|apply Hd; lia|]. apply (fin_reach _ _ R7).
-    exact (fin_T8 _ _ _ _ _ _ _ _ H7 (Hh _)).
-  - edestruct C_ack as (y6 & R6 & H6); [exact H5|exact Hge|lia|apply Hd; lia|]. apply (fin_reach _ _ R6).
-    exact (fin_T8 _ _ _ _ _ _ _ _ H6 (Hh _)).
+  intros c1 y HS Hh Hd0 Hd.
+  destruct (T_eof_c c1 y HS (Hh _) Hd0) as (y1 & R1 & ls & nw & H1). apply (fin_reach _ _ _ R1).
+  edestruct C_complete as (y2 & R2 & H2); [exact H1|lia|apply Hd; lia|]. apply (fin_reach _ _ _ R2).
+  edestruct C_fin as (y3 & R3 & H3); [exact H2|apply Hh|]. apply (fin_reach _ _ _ R3).
+  exact (fin_T9 _ _ _ _ _ H3).
 Qed.
 
 (* the ACK (Finished) is lost: the sender finishes; idle rounds until the receiver's timer expires, second Finished
    PDU, answered by the sender's entity *)
 Lemma fin_B : forall c1 y, SP (zlen data) c1 y ->
   hit ft 0 c1 = false -> hit ft 0 (c1 + 1) = true -> hit ft 0 (c1 + 1 + 1) = false -> (forall c, hit ft 1 c = false) ->
-  2 <= r_ack_limit rd -> fin_ok y.
+  2 <= r_ack_limit rd -> fin_ok [] y.
 Proof.
   intros c1 y HS Hh0 Hh1 Hh2 Hd Hld.
-  destruct (T_eof_ok c1 y HS Hh0 (Hd _)) as (y1 & R1 & ls & nw & H1). apply (fin_reach _ _ R1).
-  edestruct G_ackeof as (y2 & R2 & H2); [exact H1|apply Hd|]. apply (fin_reach _ _ R2).
-  edestruct G_fin_b as (y3 & R3 & H3); [exact H2|exact Hh1|lia|]. apply (fin_reach _ _ R3).
-  edestruct B_done as (y4 & R4 & H4); [exact H3|lia|]. apply (fin_reach _ _ R4).
-  edestruct B_loop as (y6 & nwd' & R6 & H6); [exact H4|apply le_n|lia|apply Hd|]. apply (fin_reach _ _ R6).
-  destruct (B_last _ _ _ _ _ _ _ _ H6 Hh2) as (y7 & a & R7 & Q7 & F). exact (fin_last _ _ _ R7 Q7 F).
+  destruct (T_eof_ok c1 y HS Hh0 (Hd _)) as (y1 & R1 & ls & nw & H1). apply (fin_reach _ _ _ R1).
+  edestruct G_ackeof as (y2 & R2 & H2); [exact H1|apply Hd|]. apply (fin_reach _ _ _ R2).
+  edestruct G_fin_b as (y3 & R3 & H3); [exact H2|exact Hh1|lia|]. apply (fin_reach _ _ _ R3).
+  edestruct B_done as (y4 & R4 & H4); [exact H3|lia|]. apply (fin_reach _ _ _ R4).
+  edestruct B_loop as (y6 & nwd' & R6 & H6); [exact H4|apply le_n|lia|apply Hd|]. apply (fin_reach _ _ _ R6).
+  destruct (B_last _ _ _ _ _ _ _ _ H6 Hh2) as (y7 & a & R7 & Q7 & F). exact (fin_last _ _ _ _ R7 Q7 F).
 Qed.
 
 (* from the put request to the state in which the EOF PDU is due *)
@@ -1543,13 +1552,24 @@ Proof.
   exists y2. split; [exact (reach_trans tick _ _ _ R1 R2)|exact H2].
 Qed.
 
-Lemma final_verdict_g : forall y, FinalG y -> delivered_ok [x] data (y, true) = true.
+Lemma final_verdict_g : forall er y, FinalG er y -> delivered_ok [x] data (y, true) = true /\ y_errs y = er.
 Proof.
-  intros y (er & s & nwd & fs & lgs & lgd & c1 & c2 & rnd & scur & dcur & sdone & ddone & -> & Hs & [S1' S2'] & [D1 D2] & Hl).
+  intros er y (s & nwd & fs & lgs & lgd & c1 & c2 & rnd & scur & dcur & sdone & ddone & -> & Hs & [S1' S2'] & [D1 D2] & Hl).
+  split; [|reflexivity].
   unfold delivered_ok, ZG, RF, evFinD, file_content.
   cbn [y_src y_dst y_errs d_env e_fs e_log]. rewrite Hs, Hl.
   cbn [filter success_event existsb fault_event hd andb orb]. rewrite S2', D2.
   rewrite bytes_eqb_refl. reflexivity.
+Qed.
+
+(* without a raised exception the run also passes the verdict of the fault-free runs: no fault event in either log,
+   exactly one Transaction-Finished indication of the receiver *)
+Lemma final_fault_free_g : forall y, FinalG [] y -> fault_free_ok [x] data (y, true) = true.
+Proof.
+  intros y F. destruct (final_verdict_g _ _ F) as [Hd He]. unfold fault_free_ok. rewrite Hd. cbn [fst andb]. rewrite He.
+  destruct F as (s & nwd & fs & lgs & lgd & c1 & c2 & rnd & scur & dcur & sdone & ddone & -> & Hs & [S1' S2'] & [D1 D2] & Hl).
+  unfold ZG, RF, evFinD. cbn [y_src y_dst d_env e_log]. rewrite Hs.
+  cbn [filter success_event existsb fault_event negb andb orb]. rewrite S1', D1, D2. reflexivity.
 Qed.
 
 (* the whole run *)
@@ -1557,14 +1577,14 @@ Lemma main_g : forall s1 s3,
   pump s1 = (s3, Ok [PMetadata (hdr_of cf TOWARDS_RECEIVER) clo (r_cktype rs) (zlen data) (Some (sn, [x])) []]) ->
   InvAx 0 s3 ->
   (ft = mkFault 0 (nfd + 1) 0 0 \/ ft = mkFault 0 (nfd + 2) 0 0 \/ ft = mkFault 1 0 0 0 \/ ft = mkFault 1 1 0 0) ->
-  (ft = mkFault 1 0 0 0 -> sender_first) -> 2 <= r_ack_limit rs -> 2 <= r_ack_limit rd ->
-  fin_ok (ZG [ft] [] s1 (dst_init cd) [] [] 0 0 0 None None [] []).
+  2 <= r_ack_limit rs -> 2 <= r_ack_limit rd ->
+  fin_ok [] (ZG [ft] [] s1 (dst_init cd) [] [] 0 0 0 None None [] []).
 Proof.
-  intros s1 s3 P HI Hft Hsf Hls Hld.
+  intros s1 s3 P HI Hft Hls Hld.
   assert (HN : 0 <= nfd) by (pose proof nfd_spec; assert (0 <= zlen data) by (unfold zlen; lia); nia).
   assert (Hpre : forall c, 0 <= c <= nfd -> hit ft 0 c = false).
   { intros c Hc. destruct Hft as [E|[E|[E|E]]]; rewrite E; rewrite ?hit_00, ?hit_10; try reflexivity; apply Z.eqb_neq; lia. }
-  destruct (to_eof s1 s3 P HI Hpre) as (y1 & R1 & H1). apply (fin_reach _ _ R1).
+  destruct (to_eof s1 s3 P HI Hpre) as (y1 & R1 & H1). apply (fin_reach _ _ _ R1).
   destruct Hft as [E|[E|[E|E]]].
   - apply (fin_A _ _ H1);
       [rewrite E, hit_00; apply Z.eqb_eq; lia | rewrite E, hit_00; apply Z.eqb_neq; lia
@@ -1574,7 +1594,7 @@ Proof.
       | rewrite E, hit_00; apply Z.eqb_neq; lia | intro c; rewrite E; apply hit_01 | exact Hld].
   - apply (fin_C _ _ H1);
       [intro c; rewrite E; apply hit_10 | rewrite E; reflexivity
-      | intros c Hc; rewrite E, hit_11; apply Z.eqb_neq; lia | exact (Hsf E) | exact Hls | exact Hld].
+      | intros c Hc; rewrite E, hit_11; apply Z.eqb_neq; lia].
   - apply (fin_D _ _ H1);
       [rewrite E; apply hit_10 | rewrite E; apply hit_10 | rewrite E; reflexivity | rewrite E; reflexivity
       | rewrite E; reflexivity | exact Hld].
@@ -1585,7 +1605,9 @@ End SysT.
 (* ================================================================== *)
 (* 6. property C03, K = 1, control PDUs                                *)
 (* ================================================================== *)
-Lemma control_pdu_loss :
+(* the strongest form: the run passes the verdict of the fault-free runs (delivery, no exception raised by an API call,
+   no fault event in either log, exactly one Transaction-Finished indication on each side) *)
+Lemma control_pdu_loss_fault_free :
   forall (cs cd : lcfg) (seq0 bits : Z) (p : putreq) (rs rd : rcfg) (sn dn : path) (data : bytes) (tick : Z) (ft : fault),
   let w := Z.max (l_idw cs) (pr_dstw p) in
   let large := 4294967295 <? zlen data in
@@ -1597,7 +1619,6 @@ Lemma control_pdu_loss :
   2 <= r_ack_limit rs -> 2 <= r_ack_limit rd -> 0 < tick ->
   let n := (zlen data + seg - 1) / seg in
   (ft = mkFault 0 (n + 1) 0 0 \/ ft = mkFault 0 (n + 2) 0 0 \/ ft = mkFault 1 0 0 0 \/ ft = mkFault 1 1 0 0) ->
-  (ft = mkFault 1 0 0 0 -> forall j, 0 <= j -> r_ack_ms rd <= j * tick -> r_ack_ms rs <= j * tick) ->
   0 < r_ack_ms rs -> 0 < r_ack_ms rd ->
   (bits = 8 \/ bits = 16 \/ bits = 32) -> 0 <= seq0 < 2 ^ bits -> 1 <= seg ->
   (r_cktype rs = CK_CRC32 \/ r_cktype rs = CK_CRC32C \/ r_cktype rs = CK_NULL \/ r_cktype rs = CK_MODULAR) ->
@@ -1607,10 +1628,10 @@ Lemma control_pdu_loss :
   l_ind_fin cs = true -> l_ind_fin cd = true ->
   exists fuel,
     let res := transfer cs cd seq0 bits p sn data [ft] fuel tick in
-    delivered_ok dn data res = true.
+    fault_free_ok dn data res = true.
 Proof.
   intros cs cd seq0 bits p rs rd sn dn data tick ft w large derived seg
-         Hrs Hn Hsn Hdn Hmsgs Hmode Hls Hld Htick n Hft Hsf Hacks Hackd Hbits Hseq Hseg Hck Hbytes Hid Hrd Hlen
+         Hrs Hn Hsn Hdn Hmsgs Hmode Hls Hld Htick n Hft Hacks Hackd Hbits Hseq Hseg Hck Hbytes Hid Hrd Hlen
          Hfh Hfs Hfd.
   destruct dn as [|x [|x' dn']]; try discriminate Hlen.
   set (fss := [(sn, File data)]).
@@ -1627,15 +1648,57 @@ Proof.
   assert (Hdstr : sc_dst cf = r_id rs) by (symmetry; exact (get_remote_id _ _ _ Hrs)).
   assert (Hk : ft_kind ft = 0) by (destruct Hft as [E|[E|[E|E]]]; rewrite E; reflexivity).
   destruct (main_g cs cd p rs rd sn x data cks cf seg tick clo fss ft Hn Hlook Hseg eq_refl C1 C2 Hfs Hfd Hrd Hdst
-              Hacks Hackd eq_refl Hdstr Hk Htick s1 s3 P2 HI Hft Hsf Hls Hld) as (fuel & y' & Rr & F).
+              Hacks Hackd eq_refl Hdstr Hk Htick s1 s3 P2 HI Hft Hls Hld) as (fuel & y' & Rr & F).
   exists fuel.
   assert (Et : transfer cs cd seq0 bits p sn data [ft] fuel tick = (y', true)).
   { unfold transfer, sys_init. cbn [y_src]. fold fss. rewrite P1. exact Rr. }
   cbv zeta. rewrite Et.
-  exact (final_verdict_g cd x data cf ft y' F).
+  exact (final_fault_free_g cd x data cf ft y' F).
 Qed.
 
-(* the form in which one idle round lets every pending timer expire (both intervals <= tick) is an instance *)
+Lemma fault_free_delivered : forall dn data res, fault_free_ok dn data res = true ->
+  delivered_ok dn data res = true /\ y_errs (fst res) = [].
+Proof.
+  intros dn data res H. unfold fault_free_ok in H. cbv zeta in H.
+  destruct (delivered_ok dn data res); [|discriminate H]. split; [reflexivity|].
+  destruct (y_errs (fst res)); [reflexivity|discriminate H].
+Qed.
+
+(* the statement of props/C03r.v: the file is delivered and no API call of either entity has raised an exception
+   (no PDU is refused: in none of the four recoveries does a late duplicate reach a handler that must reject it) *)
+Lemma control_pdu_loss :
+  forall (cs cd : lcfg) (seq0 bits : Z) (p : putreq) (rs rd : rcfg) (sn dn : path) (data : bytes) (tick : Z) (ft : fault),
+  let w := Z.max (l_idw cs) (pr_dstw p) in
+  let large := 4294967295 <? zlen data in
+  let derived := r_max_packet rs - (4 + 2 * w + bits / 8) - (if large then 8 else 4) - (if r_crc rs then 2 else 0) in
+  let seg := match r_max_seg rs with Some m => Z.min m derived | None => derived end in
+  get_remote (l_remotes cs) (pr_dst p) = Some rs ->
+  pr_names p = Some (sn, dn) -> sn <> [] -> dn <> [] -> pr_msgs p = None ->
+  (match pr_mode p with Some m => m | None => r_mode rs end) = ACKED ->
+  2 <= r_ack_limit rs -> 2 <= r_ack_limit rd -> 0 < tick ->
+  let n := (zlen data + seg - 1) / seg in
+  (ft = mkFault 0 (n + 1) 0 0 \/ ft = mkFault 0 (n + 2) 0 0 \/ ft = mkFault 1 0 0 0 \/ ft = mkFault 1 1 0 0) ->
+  0 < r_ack_ms rs -> 0 < r_ack_ms rd ->
+  (bits = 8 \/ bits = 16 \/ bits = 32) -> 0 <= seq0 < 2 ^ bits -> 1 <= seg ->
+  (r_cktype rs = CK_CRC32 \/ r_cktype rs = CK_CRC32C \/ r_cktype rs = CK_NULL \/ r_cktype rs = CK_MODULAR) ->
+  bytes_ok data = true ->
+  l_id cd = pr_dst p -> get_remote (l_remotes cd) (l_id cs) = Some rd -> length dn = 1%nat ->
+  get_fault_handler (l_faults cd) C_CHECKSUM_FAILURE <> None ->
+  l_ind_fin cs = true -> l_ind_fin cd = true ->
+  exists fuel,
+    let res := transfer cs cd seq0 bits p sn data [ft] fuel tick in
+    delivered_ok dn data res = true /\ y_errs (fst res) = [].
+Proof.
+  intros cs cd seq0 bits p rs rd sn dn data tick ft w large derived seg
+         Hrs Hn Hsn Hdn Hmsgs Hmode Hls Hld Htick n Hft Hacks Hackd Hbits Hseq Hseg Hck Hbytes Hid Hrd Hlen
+         Hfh Hfs Hfd.
+  destruct (control_pdu_loss_fault_free cs cd seq0 bits p rs rd sn dn data tick ft Hrs Hn Hsn Hdn Hmsgs Hmode Hls Hld Htick
+              Hft Hacks Hackd Hbits Hseq Hseg Hck Hbytes Hid Hrd Hlen Hfh Hfs Hfd) as [fuel H].
+  exists fuel. exact (fault_free_delivered _ _ _ H).
+Qed.
+
+(* the form in which one idle round lets every pending timer expire (both intervals <= tick) is an instance; since the
+   F30 repair the general statement needs no relation between the two timers any more, so this is merely a special case *)
 Corollary control_pdu_loss_one_idle_round :
   forall (cs cd : lcfg) (seq0 bits : Z) (p : putreq) (rs rd : rcfg) (sn dn : path) (data : bytes) (tick : Z) (ft : fault),
   let w := Z.max (l_idw cs) (pr_dstw p) in
@@ -1658,31 +1721,31 @@ Corollary control_pdu_loss_one_idle_round :
   l_ind_fin cs = true -> l_ind_fin cd = true ->
   exists fuel,
     let res := transfer cs cd seq0 bits p sn data [ft] fuel tick in
-    delivered_ok dn data res = true.
+    delivered_ok dn data res = true /\ y_errs (fst res) = [].
 Proof.
   intros cs cd seq0 bits p rs rd sn dn data tick ft w large derived seg
          Hrs Hn Hsn Hdn Hmsgs Hmode Hls Hld Htick n Hft Hts Htd Hacks Hackd.
-  apply control_pdu_loss; try assumption.
-  intros _ j Hj Hle. assert (1 <= j) by nia. nia.
+  apply control_pdu_loss; assumption.
 Qed.
 
-(* the hypothesis on the two Positive-ACK timers for the lost ACK (EOF) is needed: the sender refuses the Finished PDU
-   while it waits for the ACK (EOF) (PduIgnoredForSource).  If the receiver's timer expires in earlier idle rounds than
-   the sender's (here: 1000 ms against 5000 ms, idle rounds of 1000 ms, limits 2), the receiver re-sends the Finished
-   PDU into the same refusal until its Positive ACK Limit is reached: it cancels and then abandons the transaction.
-   The EOF PDU the sender re-sends after 5000 ms meets an idle receiver whose entity answers ACK (EOF, terminated);
-   the sender then waits for a Finished PDU that will never come (acknowledged mode: no check timer).  Whatever the
-   number of rounds, the run is not accepted. *)
-Example ack_eof_timer_counterexample :
+(* the configuration that was the counterexample before fix 179debf of the Python code (finding F30): lost ACK (EOF), the
+   receiver's Positive-ACK timer (1000 ms) expires in earlier idle rounds than the sender's (5000 ms), idle rounds of
+   1000 ms, limits 2.  Then the sender refused the Finished PDU while it waited for the ACK (EOF) (PduIgnoredForSource),
+   the receiver re-sent it into the same refusal until its Positive ACK Limit was reached and gave the transaction up,
+   and the sender was left waiting for a Finished PDU forever; the theorem needed the hypothesis that the sender's timer
+   does not expire later than the receiver's.  Now the sender takes the Finished PDU for the lost ACK (EOF): the file is
+   delivered after 6 rounds, neither clock has advanced (no timer expiry), no exception, no fault event. *)
+Example ack_eof_timer_example :
   let rs := mkRcfg 2 2 (Some 4) 64 false false ACKED CK_CRC32 5000 2 2 false false 1000 2 in
   let rd := mkRcfg 1 2 (Some 4) 64 false false ACKED CK_CRC32 1000 2 2 false false 1000 2 in
   let cs := mkLcfg 1 2 true true true true default_fault_table 1000 [rs] in
   let cd := mkLcfg 2 2 true true true true default_fault_table 1000 [rd] in
   let data := map (fun i => (7 * Z.of_nat i + 3) mod 256) (seq 0 3) in
   let res fuel := transfer cs cd 0 16 (mkPut 2 2 None None (Some ([1], [2])) None) [1] data [mkFault 1 0 0 0] fuel 1000 in
-  forallb (fun fuel => negb (delivered_ok [2] data (res fuel))) (seq 0 64) = true /\
-  existsb fault_event (e_log (d_env (y_dst (fst (res 64%nat))))) = true /\
-  d_state (y_dst (fst (res 64%nat))) = ST_IDLE /\
-  s_state (y_src (fst (res 64%nat))) = ST_BUSY /\ s_step (y_src (fst (res 64%nat))) = SS_WAITING_FOR_FINISHED /\
-  hd (0, 0) (y_errs (fst (res 64%nat))) = (0, E_PDU_IGNORED_SOURCE).
+  forallb (fun fuel => negb (snd (res fuel))) (seq 0 6) = true /\
+  forallb (fun fuel => fault_free_ok [2] data (res fuel)) (seq 6 58) = true /\
+  y_round (fst (res 64%nat)) = 6 /\
+  e_now (s_env (y_src (fst (res 64%nat)))) = 0 /\ e_now (d_env (y_dst (fst (res 64%nat)))) = 0 /\
+  d_state (y_dst (fst (res 64%nat))) = ST_IDLE /\ s_state (y_src (fst (res 64%nat))) = ST_IDLE /\
+  y_errs (fst (res 64%nat)) = [].
 Proof. vm_compute. repeat split; reflexivity. Qed.
